@@ -1477,8 +1477,22 @@ type akWinRow struct {
 	Invs1 []akAckInv `json:"invs1"`
 	Seen0 int        `json:"seen0"`
 	Seen1 int        `json:"seen1"`
+	Hung  bool       `json:"hung"` // the scenario did not come to an end (an Emit or Close never returned)
 	Ms    int64      `json:"ms"`
 	Err   string     `json:"err,omitempty"`
+}
+
+// akRunWinGuarded gives a scenario a deadline: a wedged socket (an Emit that never returns) must not
+// hang the harness; it is reported as a row without invocations.
+func akRunWinGuarded(spec akWinSpec, patience time.Duration) akWinRow {
+	done := make(chan akWinRow, 1)
+	go func() { done <- akRunWin(spec, patience) }()
+	select {
+	case r := <-done:
+		return r
+	case <-time.After(4*patience + 8*time.Second):
+		return akWinRow{Mode: "queuewin", Spec: spec, Hung: true, Invs0: []akAckInv{}, Invs1: []akAckInv{}}
+	}
 }
 
 func akRunWin(spec akWinSpec, patience time.Duration) akWinRow {
@@ -1814,7 +1828,7 @@ func acksMain(args []string) error {
 			specs = akWinSpecs()
 		}
 		rows := make([]akWinRow, len(specs))
-		akParallel(len(specs), *workers, func(i int) { rows[i] = akRunWin(specs[i], patience) })
+		akParallel(len(specs), *workers, func(i int) { rows[i] = akRunWinGuarded(specs[i], patience) })
 		for _, row := range rows {
 			out.Put(row)
 		}
